@@ -158,17 +158,26 @@ pub fn add_form_rotation(nodes: &mut [NodeSpec], cfg: Cfg, salt: usize) {
     if cfg.version >= 5 {
         forms.extend_from_slice(&[F_LINE_STRP, F_STRX, F_STRX1, F_STRX2, F_STRX3, F_STRX4, F_ADDRX, F_ADDRX1, F_ADDRX2, F_ADDRX3, F_ADDRX4, F_DATA16, F_REF_SUP4, F_REF_SUP8, F_STRP_SUP, F_LOCLISTX, F_RNGLISTX, F_IMPLICIT_CONST]);
     }
+    // the GNU vendor forms (two-byte form codes), directly and as the dynamic form of DW_FORM_indirect
+    let mut forms: Vec<(u16, u16)> = forms.into_iter().map(|f| (f, 0)).collect();
+    for f in [F_GNU_ADDR_INDEX, F_GNU_STR_INDEX, F_GNU_REF_ALT, F_GNU_STRP_ALT] {
+        forms.push((f, 0));
+    }
+    for inner in [F_DATA1, F_UDATA, F_BLOCK1, F_GNU_STR_INDEX, F_GNU_ADDR_INDEX, F_GNU_STRP_ALT] {
+        forms.push((F_INDIRECT, inner));
+    }
     for (i, nd) in nodes.iter_mut().enumerate() {
-        let form = forms[(salt + i * 7) % forms.len()];
-        let fk = form_kind(form).expect("form table");
+        let (form, inner) = forms[(salt + i * 7) % forms.len()];
+        let fk = form_kind(if form == F_INDIRECT { inner } else { form }).expect("form table");
         let ps = super::c03::payloads(fk, cfg, false);
         // one of the first (short) payloads: units must stay small enough for DW_FORM_ref1 siblings
         let p = ps[(salt / forms.len() + i) % ps.len().min(3)].clone();
         let implicit = if fk == FK::ImplicitConst { -5 - i as i64 } else { 0 };
         let p = if fk == FK::ImplicitConst { Payload::Nothing } else { p };
+        let p = if form == F_INDIRECT { Payload::Indirect(inner, Box::new(p)) } else { p };
         // in front of the sibling attribute for odd nodes, after everything for even ones
         let at = if i % 2 == 1 { 0 } else { nd.attrs.len() };
-        nd.attrs.insert(at, AttrSpec { name: 0x2201, form, inner: 0, implicit, val: AVal::P(p) });
+        nd.attrs.insert(at, AttrSpec { name: 0x2201, form, inner, implicit, val: AVal::P(p) });
     }
 }
 
